@@ -68,6 +68,8 @@ structure CtorSpec where
   params : List (String × Option Rat)
   /-- parameters `p` with `if p < 0: raise ValueError` -/
   guards : List String
+  /-- parameters `p` with `if p <= 0: raise ValueError` (checked after the `< 0` guards) -/
+  guardsLE : List String
   /-- parameters `p` validated by `periodic_function(p)` (after the guards) -/
   wavetypeChecks : List String
   values : List (String × CExpr)
